@@ -108,7 +108,7 @@ def reply_ordinals(tr):
     return calls
 
 
-def corrupt_one_call(rnd, base, kinds=("trunc", "trunc", "trunc", "trunc", "cut", "flip", "status32", "encap"), family="tag-corrupt"):
+def corrupt_one_call(rnd, base, kinds=("trunc", "trunc", "trunc", "trunc", "cut", "flip", "flip", "status32", "encap"), family="tag-corrupt"):
     """For each base session: a dry run tells which replies belong to its read / write calls; one of them is corrupted and
     the corrupted call becomes the last data call of the session (what the target did is then unknown to the caller)."""
     from .. import session
@@ -127,7 +127,9 @@ def corrupt_one_call(rnd, base, kinds=("trunc", "trunc", "trunc", "trunc", "cut"
         elif how == "cut":
             c = ["cut", rnd.choice([0, 4, 23, 24, 44, 50, ln - 1])]
         elif how == "flip":
-            c = ["flip", rnd.randint(24, ln - 1), 1 << rnd.randint(0, 7)]
+            # half of the flips hit the first bytes of the CIP reply (service, status, count and offset table of a multi-service reply)
+            hi = min(ln - 1, 70) if rnd.random() < 0.5 and ln > 47 else ln - 1
+            c = ["flip", rnd.randint(46 if hi <= 70 and ln > 47 else 24, hi), 1 << rnd.randint(0, 7)]
         elif how == "status32":
             c = ["status32", rnd.choice([1, 0x64, 0x65, 0x10000, 0x7FFF0000])]
         else:
